@@ -715,4 +715,107 @@ Section ProxySessions.
     qrun (mkp data (fresh bits) d) (evolution_run first gens) =
       (qdirect d (evolution_run first gens), true).
   Proof. intros. apply proxy_sessions_transparent. apply evolution_run_wf; assumption. Qed.
+  (* ---- a whole search session, the initial init included.
+     validation_strategy::init(run) -- for EVERY run, run 0 included -- and
+     close(run) change the data sets and clear the cached evaluators
+     (dss::init / dss::close: shake_impl / move_to_validation, then
+     clear_evaluators()); before the first init the proxy may already hold
+     values: individuals evaluated beforehand, or a cache restored by
+     search::load (QSaveLoad). *)
+  Fixpoint dirty_after (dirty : bool) (evs : list qev) : bool :=
+    match evs with
+    | [] => dirty
+    | QEval _ :: r => dirty_after false r
+    | QClear :: r => dirty_after false r
+    | QData _ :: r => dirty_after true r
+    | QSaveLoad :: r => dirty_after dirty r
+    end.
+
+  Lemma qwf_app : forall a b dirty, qwf dirty a -> qwf (dirty_after dirty a) b -> qwf dirty (a ++ b).
+  Proof.
+    induction a as [|e a IH]; intros b dirty Ha Hb; [exact Hb|].
+    destruct e; cbn [app qwf dirty_after] in *.
+    - destruct Ha as (Hd & Px & Ha). split; [exact Hd|split; [exact Px|apply IH; assumption]].
+    - apply IH; assumption.
+    - apply IH; assumption.
+    - apply IH; assumption.
+  Qed.
+
+  Definition strategy_init (d : data) : list qev := [QData d; QClear].
+  Definition strategy_close (d : data) : list qev := [QData d; QClear].
+
+  (* one run: init, first evaluation, the generations, close, and the
+     evaluations made on the closed sets (search::calculate_metrics) *)
+  Definition one_run (r : data * ind * list (option data * ind * list ind) * data * list ind) : list qev :=
+    let '(d0, first, gens, d1, after) := r in
+    strategy_init d0 ++ QEval first :: flat_map (fun g => generation (fst (fst g)) (snd (fst g)) (snd g)) gens
+      ++ strategy_close d1 ++ map QEval after.
+
+  Definition run_inds (r : data * ind * list (option data * ind * list ind) * data * list ind) : Prop :=
+    let '(d0, first, gens, d1, after) := r in
+    P first /\ Forall (fun g => P (snd (fst g)) /\ Forall P (snd g)) gens /\ Forall P after.
+
+  Definition search_session (restored : bool) (pre : list ind) runs : list qev :=
+    (if restored then [QSaveLoad] else []) ++ map QEval pre ++ flat_map one_run runs ++ [QSaveLoad].
+
+  Lemma qwf_evals_end : forall l, Forall P l -> qwf false (map QEval l) /\ dirty_after false (map QEval l) = false.
+  Proof.
+    induction l as [|x l IH]; intro Hl; cbn; [split; [exact I|reflexivity]|].
+    inversion Hl; subst. destruct (IH H2) as (A & B). repeat split; assumption.
+  Qed.
+
+  Lemma generations_wf : forall gens,
+    Forall (fun g => P (snd (fst g)) /\ Forall P (snd g)) gens ->
+    let l := flat_map (fun g => generation (fst (fst g)) (snd (fst g)) (snd g)) gens in
+    qwf false l /\ dirty_after false l = false.
+  Proof.
+    intros gens Hg. induction Hg as [|[[sh b] offs] gens (Pb & Po) _ (IW & ID)]; cbn [flat_map fst snd];
+      [split; [exact I|reflexivity]|].
+    destruct (qwf_evals_end offs Po) as (EW & ED).
+    unfold generation. destruct sh as [d|]; cbn [app].
+    - split.
+      + cbn [qwf]. split; [reflexivity|split; [exact Pb|]]. apply qwf_app; [exact EW|rewrite ED; exact IW].
+      + cbn [dirty_after]. clear - ED ID. induction offs as [|x offs IH]; cbn in *; [exact ID|apply IH; exact ED].
+    - split.
+      + apply qwf_app; [exact EW|rewrite ED; exact IW].
+      + clear - ED ID. induction offs as [|x offs IH]; cbn in *; [exact ID|apply IH; exact ED].
+  Qed.
+
+  Lemma dirty_after_app : forall a b d, dirty_after d (a ++ b) = dirty_after (dirty_after d a) b.
+  Proof. induction a as [|e a IH]; intros b d; [reflexivity|]. destruct e; cbn; apply IH. Qed.
+
+  Lemma one_run_wf : forall r dirty, run_inds r -> qwf dirty (one_run r) /\ dirty_after dirty (one_run r) = false.
+  Proof.
+    intros [[[[d0 first] gens] d1] after] dirty (Pf & Hg & Ha).
+    destruct (generations_wf gens Hg) as (GW & GD). destruct (qwf_evals_end after Ha) as (AW & AD).
+    unfold one_run, strategy_init, strategy_close. cbn [app qwf dirty_after]. split.
+    - split; [reflexivity|split; [exact Pf|]].
+      apply qwf_app; [exact GW|]. rewrite GD. cbn [app qwf]. exact AW.
+    - rewrite dirty_after_app, GD. cbn [app dirty_after]. exact AD.
+  Qed.
+
+  Lemma runs_wf : forall runs, Forall run_inds runs ->
+    qwf false (flat_map one_run runs) /\ dirty_after false (flat_map one_run runs) = false.
+  Proof.
+    intros runs H. induction H as [|r runs Hr _ (IW & ID)]; cbn [flat_map]; [split; [exact I|reflexivity]|].
+    destruct (one_run_wf r false Hr) as (W & D). split.
+    - apply qwf_app; [exact W|rewrite D; exact IW].
+    - rewrite dirty_after_app, D. exact ID.
+  Qed.
+
+  Lemma search_session_wf : forall restored pre runs,
+    Forall P pre -> Forall run_inds runs -> qwf false (search_session restored pre runs).
+  Proof.
+    intros restored pre runs Hp Hr. unfold search_session.
+    destruct (qwf_evals_end pre Hp) as (PW & PD). destruct (runs_wf runs Hr) as (RW & RD).
+    assert (G : qwf false (map QEval pre ++ flat_map one_run runs ++ [QSaveLoad])).
+    { apply qwf_app; [exact PW|]. rewrite PD. apply qwf_app; [exact RW|]. rewrite RD. exact I. }
+    destruct restored; cbn [app qwf]; exact G.
+  Qed.
+
+  Lemma search_session_transparent : forall bits d restored pre runs,
+    Forall P pre -> Forall run_inds runs ->
+    qrun (mkp data (fresh bits) d) (search_session restored pre runs) =
+      (qdirect d (search_session restored pre runs), true).
+  Proof. intros. apply proxy_sessions_transparent. apply search_session_wf; assumption. Qed.
 End ProxySessions.
